@@ -56,9 +56,13 @@ pub fn encode(src: &[u8], ctx: &Context, state_count: usize, dst: &mut Vec<u8>) 
         }
     }
 
-    for (state, chunk) in states.iter_mut().rev().zip(chunks.iter().rev()) {
-        for syms in chunk.windows(CONTEXT_SIZE).rev() {
-            let (i, j) = (usize::from(syms[0]), usize::from(syms[1]));
+    // The decoder reads one symbol of every chunk in turn (sharing a single byte stream), so the
+    // symbols have to be encoded in exactly the reverse of that order.
+    let chunk_size = src.len() / state_count;
+
+    for k in (1..chunk_size).rev() {
+        for (state, chunk) in states.iter_mut().rev().zip(chunks.iter().rev()) {
+            let (i, j) = (usize::from(chunk[k - 1]), usize::from(chunk[k]));
             let (f, g) = (frequencies[i][j], cumulative_frequencies[i][j]);
             *state = state_renormalize(*state, f, NORMALIZATION_BITS, &mut buf);
             *state = state_step(*state, f, g, NORMALIZATION_BITS);
